@@ -20,11 +20,15 @@ class Divergence(Exception):
 
 
 class Execution:
-    def __init__(self, bodies, schedule, files, horizon=400000, expect=None, shared=()):
+    def __init__(self, bodies, schedule, files, horizon=400000, expect=None, shared=(), write_lines=None):
         """bodies: list of callables; schedule: {index: alt}; files: set of basenames (under fastparquet/)
         expect: optional (index, digest) - trace digest the replay must have reached at `index`
         shared: objects shared by the threads; a point is a *focus* point when it lies in a frame that received
-        one of them as an argument (the frames that can touch the shared state directly)"""
+        one of them as an argument (the frames that can touch the shared state directly)
+        write_lines: optional, one collection of (file, line) per thread: a point of thread t is (also) a focus
+        point when the line event that thread t raised just before it is in write_lines[t] - the *write points*
+        found by write_points() below: the first point at which another thread can see what that line wrote"""
+        self.write_lines = [frozenset((f, int(l)) for f, l in w) for w in write_lines] if write_lines else None
         self.shared = {id(o) for o in shared}
         self._keep = list(shared)
         self.focus = []
@@ -89,14 +93,24 @@ class Execution:
         files = self.files
 
         shared = self.shared
+        wl = self.write_lines[tid] if self.write_lines and tid < len(self.write_lines) else None
+        prev = [None]       # label (file, line) of the previous line event of this thread
+
+        def after_write(frame):
+            fn = frame.f_code.co_filename
+            was = prev[0]
+            prev[0] = (fn[fn.rfind("/") + 1:], frame.f_lineno)
+            return 1 if was in wl else 0
 
         def local(frame, event, arg):
             if event == "line":
-                self._point(tid, frame)
+                self._point(tid, frame, after_write(frame) if wl is not None else 0)
             return local
 
         def local_focus(frame, event, arg):
             if event == "line":
+                if wl is not None:
+                    after_write(frame)
                 self._point(tid, frame, 1)
             return local_focus
 
@@ -157,3 +171,43 @@ def prefix_digests(trace):
         h.update(repr(label).encode())
         out.append(h.hexdigest())
     return out
+
+
+# ---------------------------------------------------------------------------------------------------
+# sequential transient-write detector (additive; used by C20 for its read programs)
+def write_points(body, files, fingerprint):
+    """Run `body` alone under a line tracer over the same files as Execution and evaluate fingerprint() at every
+    line event.  Returns (write_lines, n_events, n_writes, exception or None): write_lines = sorted list of [file, line] labels of the
+    line events after which (= before the next line event of the thread) the fingerprint had changed; a write made
+    after the last line event cannot be seen by a point of this thread and is not reported."""
+    out = set()
+    state = {"fp": fingerprint(), "prev": None, "n": 0, "w": 0}
+
+    def local(frame, event, arg):
+        if event == "line":
+            fp = fingerprint()
+            if fp != state["fp"]:
+                state["fp"] = fp
+                state["w"] += 1
+                if state["prev"] is not None:
+                    out.add(state["prev"])
+            fn = frame.f_code.co_filename
+            state["prev"] = (fn[fn.rfind("/") + 1:], frame.f_lineno)
+            state["n"] += 1
+        return local
+
+    def tracer(frame, event, arg):
+        if event == "call":
+            fn = frame.f_code.co_filename
+            if "fastparquet" in fn and fn[fn.rfind("/") + 1:] in files:
+                return local
+        return None
+    err = None
+    sys.settrace(tracer)
+    try:
+        body()
+    except BaseException as e:      # the op itself failing is reported by the caller's own sequential run
+        err = e
+    finally:
+        sys.settrace(None)
+    return sorted([f, l] for f, l in out), state["n"], state["w"], err
